@@ -17,7 +17,7 @@ func parseOp(s string) (explore.Op, error) {
 	if i := strings.IndexByte(s, '('); i >= 0 {
 		name, key = s[:i], strings.TrimSuffix(s[i+1:], ")")
 	}
-	for k := explore.Put; k <= explore.Open2; k++ {
+	for k := explore.Put; k <= explore.PutBig; k++ {
 		if k.String() == name {
 			return explore.Op{Kind: k, Key: key}, nil
 		}
